@@ -108,7 +108,12 @@ class STL(TermList):
         return True
 
     def is_empty(self):
-        return False
+        # a primitive like the others: either answer is possible for an uninterpreted list.  The algebra layer of the tree under
+        # test does not ask (no event is logged there); code that does gets both answers, and the obligations are judged without
+        # granting anything for an "empty" answer
+        i = Ctx.chooser.pick(2)
+        Ctx.log.append({"k": "is_empty", "s": _tags(self), "ctx": [], "elim": [], "kind": "empty" if i == 0 else "nonempty", "x": []})
+        return i == 0
 
     def _elim(self, kind, context, vars_to_elim):
         forb = {str(v) for v in vars_to_elim}
